@@ -208,11 +208,27 @@ func ruleLocalBufferLayout(r *core.Run, p *core.Prog) {
 						ver = "v4"
 					}
 				}
-				if core.MentionsField(info, cond, fMax) && taken {
-					limitTaken = true
+				if mentionsFieldR(info, add.Decl.Body, cond, fMax) {
+					// the size-limit test `len(data) >= Max` (operands possibly hoisted into locals, either polarity)
+					atom, truth := normCond(cond, taken)
+					if b, ok := atom.(*ast.BinaryExpr); ok {
+						atLimit := false
+						lhsIsMax := mentionsFieldR(info, add.Decl.Body, b.X, fMax)
+						switch b.Op {
+						case token.GEQ, token.GTR: // len >= Max  |  Max >= len (mirrored below)
+							atLimit = truth != lhsIsMax
+						case token.LSS, token.LEQ:
+							atLimit = truth == lhsIsMax
+						}
+						if atLimit {
+							limitTaken = true
+						}
+					} else if truth {
+						limitTaken = true
+					}
 				}
 				// the space test: <expr with writeBufPos + ... + K> (>=|>) len(data)
-				if b, ok := core.BinOp(cond, token.GEQ, token.GTR); ok && core.MentionsField(info, b.X, fW) && core.MentionsField(info, b.Y, fData) {
+				if b, ok := core.BinOp(cond, token.GEQ, token.GTR); ok && mentionsFieldR(info, add.Decl.Body, b.X, fW) && mentionsFieldR(info, add.Decl.Body, b.Y, fData) {
 					_, k, okk := splitConstPart(info, b.X)
 					if okk {
 						spaceK, spaceOp, spaceWhere = k, b.Op, p.Rel(cond.Pos())
@@ -229,12 +245,15 @@ func ruleLocalBufferLayout(r *core.Run, p *core.Prog) {
 				}
 			}
 			for _, c := range core.Calls(node, false) {
-				if core.CallName(info, c) == pkgCapture+".LocalBuffer.grow" {
+				if cn := core.CallName(info, c); cn == pkgCapture+".LocalBuffer.grow" || strings.HasSuffix(cn, ".Resize") {
 					grew = true
 				}
 			}
 			if a, ok := node.(*ast.AssignStmt); ok {
 				for _, l := range a.Lhs {
+					if core.SelField(info, l) == fData {
+						grew = true // the data slice is replaced
+					}
 					if core.SelField(info, l) == fW {
 						stores = append(stores, "writeBufPos")
 						if a.Tok == token.ADD_ASSIGN {
@@ -300,7 +319,7 @@ func ruleLocalBufferLayout(r *core.Run, p *core.Prog) {
 			// growth must happen on the false edge of the limit test: limitTaken must be false and the limit cond must be on the path
 			onPath := false
 			for i, n := range path {
-				if _, isCond := g.Taken(path, i); isCond && core.MentionsField(info, g.Nodes[n], fMax) {
+				if _, isCond := g.Taken(path, i); isCond && mentionsFieldR(info, add.Decl.Body, g.Nodes[n], fMax) {
 					onPath = true
 				}
 			}
